@@ -94,3 +94,28 @@ def worklist_ok(start, seen):
             continue
         seen.add(item)
         work.extend(item.children)
+
+
+def dispatch_break_bad(definitions, name):
+    operation = None
+    fragments = {}
+    for definition in definitions:
+        if isinstance(definition, OperationDefinitionNode):
+            if definition.name == name:
+                operation = definition
+                break
+        elif isinstance(definition, FragmentDefinitionNode):
+            fragments[definition.name] = definition
+    return operation, fragments
+
+
+def dispatch_break_ok(definitions, name):
+    operation = None
+    fragments = {}
+    for definition in definitions:
+        if isinstance(definition, OperationDefinitionNode):
+            if definition.name == name:
+                operation = definition
+        elif isinstance(definition, FragmentDefinitionNode):
+            fragments[definition.name] = definition
+    return operation, fragments
